@@ -1,10 +1,10 @@
-(* C16, first clause, from the beginning of a chain: the MEL/SYM and MEL/ERG pools are created by the first
-   seal with 10^9 of liquidity that nobody owns, so - if at most 10^9 - 1 of their tokens existed before (none
+(* C16, first clause, from the beginning of a chain: the MEL/SYM and MEL/ERG pools - and where TIP-902 is active
+   the ERG/SYM pool - are created by the first seal with 10^9 of liquidity that nobody owns, so - if at most 10^9 - 1 of their tokens existed before (none
    does in a genesis state) - they are born live and backed with room to spare, and stay so in every later
    state of every history. *)
 From MelVerif Require Import STF.Proofs.Tactics STF.Proofs.MapLemmas STF.Proofs.Frame STF.Proofs.Supply STF.Proofs.Pool STF.Proofs.BatchSupply
   STF.Proofs.SealCoins STF.Proofs.SealSupply STF.Proofs.PoolKeys STF.Proofs.SealLift STF.Proofs.SealInv STF.Proofs.HashFacts STF.Proofs.SealCounts
-  STF.Proofs.Coins STF.Proofs.History STF.Proofs.Declared STF.Proofs.PoolHistory STF.Proofs.SealPegged STF.Proofs.SupplyHistory STF.Proofs.BoundsHistory.
+  STF.Proofs.Coins STF.Proofs.Stakes STF.Proofs.History STF.Proofs.Declared STF.Proofs.PoolHistory STF.Proofs.SealPegged STF.Proofs.SupplyHistory STF.Proofs.BoundsHistory.
 From Coq Require Import ZifyN ZifyNat ZifyBool.
 Open Scope N_scope.
 
@@ -64,14 +64,14 @@ Proof.
 Qed.
 
 Variable k : denom * denom.
-Hypothesis Hb : k = MS \/ k = ME.
+Hypothesis Hb : k = MS \/ k = ME \/ k = ES.
 
 Lemma born_in_K : In k K.
-Proof. destruct K_builtins as (A & B & _). destruct Hb as [-> | ->]; assumption. Qed.
+Proof. destruct K_builtins as (A & B & C). destruct Hb as [-> | [-> | ->]]; assumption. Qed.
 
-Lemma unborn_created s : get_pool s k = None -> get_pool (create_builtins s) k = Some builtin_pool.
+Lemma unborn_created s : get_pool s k = None -> (k = ES -> tip_902 s = true) -> get_pool (create_builtins s) k = Some builtin_pool.
 Proof.
-  intros E. rewrite create_builtins_eq. cbn zeta.
+  intros E Ht. rewrite create_builtins_eq. cbn zeta.
   assert (Put: forall k0 st, get_pool st k0 = None -> get_pool (add_builtin k0 st) k0 = Some builtin_pool).
   { intros k0 st E0. unfold add_builtin. rewrite E0. apply get_pool_put_same. }
   assert (Other: forall k0 k1 st, poolkey_code k0 <> poolkey_code k1 -> get_pool (add_builtin k0 st) k1 = get_pool st k1).
@@ -79,24 +79,30 @@ Proof.
   assert (C12: poolkey_code MS <> poolkey_code ME) by (vm_compute; discriminate).
   assert (C13: poolkey_code ES <> poolkey_code MS) by (vm_compute; discriminate).
   assert (C23: poolkey_code ES <> poolkey_code ME) by (vm_compute; discriminate).
-  fold MS ME ES.
-  assert (E2: get_pool (add_builtin ME (add_builtin MS s)) k = Some builtin_pool).
-  { destruct Hb as [-> | ->].
-    - rewrite Other by (intros X; apply C12; symmetry; exact X). apply Put. exact E.
-    - apply Put. rewrite Other by exact C12. exact E. }
-  destruct (tip_902 _); [|exact E2].
-  rewrite Other; [exact E2|]. destruct Hb as [-> | ->]; assumption.
+  fold MS ME ES. rewrite !add_builtin_tip.
+  destruct Hb as [-> | [-> | ->]].
+  - assert (E2: get_pool (add_builtin ME (add_builtin MS s)) MS = Some builtin_pool).
+    { rewrite Other by (intros X; apply C12; symmetry; exact X). apply Put. exact E. }
+    destruct (tip_902 s); [|exact E2]. rewrite Other by exact C13. exact E2.
+  - assert (E2: get_pool (add_builtin ME (add_builtin MS s)) ME = Some builtin_pool).
+    { apply Put. rewrite Other by exact C12. exact E. }
+    destruct (tip_902 s); [|exact E2]. rewrite Other by exact C23. exact E2.
+  - rewrite (Ht eq_refl). apply Put.
+    rewrite Other by (intros X; apply C23; symmetry; exact X).
+    rewrite Other by (intros X; apply C13; symmetry; exact X). exact E.
 Qed.
 
-(* the pool does not exist yet and fewer than 10^9 of its tokens do *)
+(* the pool does not exist yet and fewer than 10^9 of its tokens do (and, for ERG/SYM, TIP-902 is active, so that
+   the next seal creates it) *)
 Definition Unborn (s : wstate) : Prop :=
-  get_pool s k = None /\ coin_supply (LDk SO k) (s_coins s) + psum K (LDk SO k) s + 1 <= MICRO * 1000.
+  get_pool s k = None /\ coin_supply (LDk SO k) (s_coins s) + psum K (LDk SO k) s + 1 <= MICRO * 1000 /\
+  (k = ES -> tip_902 s = true).
 Definition BornBacked (s : wstate) : Prop := Backed K SO k s \/ Unborn s.
 
 Theorem seal_births_backed s a s' :
   seal SO s a = Ok s' -> Unborn s -> seal_premises K SO s -> Backed K SO k s'.
 Proof.
-  intros H [En Hs] (H1 & H2 & H3 & H4 & H5 & H6 & H7 & H8).
+  intros H (En & Hs & Ht) (H1 & H2 & H3 & H4 & H5 & H6 & H7 & H8).
   rewrite <- seal_create_builtins in H. set (s1 := create_builtins s) in *.
   assert (F1: frame_fp s1 = frame_fp s) by apply frame_create_builtins.
   assert (T1: sorted_txs s1 = sorted_txs s) by (apply txs_same, frame_fp_txs; exact F1).
@@ -104,7 +110,7 @@ Proof.
   assert (N1: s_network s1 = s_network s /\ s_height s1 = s_height s) by (unfold frame_fp, frame in F1; split; congruence).
   destruct N1 as [En1 Eh1].
   apply (seal_keeps_backed_pool_live K Kcodes SO K_builtins LD_inj s1 a s' k builtin_pool H born_in_K).
-  - apply unborn_created. exact En.
+  - apply unborn_created; [exact En|exact Ht].
   - apply builtin_pool_live.
   - rewrite C1. unfold s1, LDk. rewrite psum_custom_create. fold (LDk SO k). exact Hs.
   - unfold legacy_net. rewrite En1, Eh1. exact H1.
@@ -120,7 +126,7 @@ Qed.
 Lemma batch_keeps_unborn s lh txs s' :
   apply_tx_batch SO s lh txs = Ok s' -> HashOK SO s txs -> batch_issuance (LDk SO k) txs = 0 -> Unborn s -> Unborn s'.
 Proof.
-  intros H HK Hiss [En Hs].
+  intros H HK Hiss (En & Hs & Ht).
   pose proof (accepted_batch_pools SO s lh txs s' H) as Epools.
   assert (Hne: LDk SO k <> NewCustom) by (unfold LDk; discriminate).
   pose proof (accepted_batch_supply_hash SO s lh txs s' H HK (LDk SO k) Hne) as Hsup.
@@ -128,7 +134,9 @@ Proof.
   assert (F: forall x, fee_part (LDk SO k) x = 0) by (intros x; unfold fee_part, LDk; reflexivity).
   rewrite !F in Hsup.
   split; [unfold get_pool; rewrite Epools; exact En|].
-  rewrite (psum_same K (LDk SO k) s s' Epools). lia.
+  split; [rewrite (psum_same K (LDk SO k) s s' Epools); lia|].
+  intros Ek. rewrite <- (Ht Ek). destruct (apply_tx_batch_frame SO s lh txs s' H) as (E1 & E2 & _).
+  unfold tip_902, tip_condition. rewrite E1, E2. reflexivity.
 Qed.
 
 Lemma hstep_born s o : Good2 s -> BornBacked s -> pool_bounds_step_ok K SO k s o -> BornBacked (hstep SO s o).
@@ -189,7 +197,8 @@ Proof.
 Qed.
 
 Lemma unborn_def s :
-  Unborn s <-> get_pool s k = None /\ coin_supply (LDk SO k) (s_coins s) + psum K (LDk SO k) s + 1 <= MICRO * 1000.
+  Unborn s <-> get_pool s k = None /\ coin_supply (LDk SO k) (s_coins s) + psum K (LDk SO k) s + 1 <= MICRO * 1000 /\
+                (k = ES -> tip_902 s = true).
 Proof. reflexivity. Qed.
 Lemma born_backed_def s : BornBacked s <-> Backed K SO k s \/ Unborn s.
 Proof. reflexivity. Qed.
@@ -197,9 +206,11 @@ End Born.
 
 (* a genesis state whose one coin is no liquidity token of the pool has neither the pool nor any of its tokens *)
 Lemma genesis_unborn K SO k net c fp m st :
-  cd_denom (c_data c) <> LDk SO k -> Unborn K SO k (genesis net c fp m st).
+  cd_denom (c_data c) <> LDk SO k -> (k = ES -> net <> MAINNET /\ net <> TESTNET) -> Unborn K SO k (genesis net c fp m st).
 Proof.
-  intros Hd. split; [reflexivity|].
+  intros Hd Hn. split; [reflexivity|]. split; cycle 1.
+  { intros Ek. destruct (Hn Ek) as [N1 N2]. unfold tip_902, tip_condition, genesis. cbn zeta. cbn [s_network set_coins].
+    apply N.eqb_neq in N1, N2. rewrite N1, N2. reflexivity. }
   assert (Ep: psum K (LDk SO k) (genesis net c fp m st) = 0).
   { unfold psum. induction K as [|k0 l IH]; cbn [map nsum]; [reflexivity|]. rewrite IH.
     unfold pool_at, get_pool. cbn [genesis s_pools set_coins]. rewrite lookup_empty. rewrite side_empty. reflexivity. }
@@ -212,3 +223,75 @@ Proof.
     destruct (denom_eqb (cd_denom (c_data c)) (LDk SO k)) eqn:E; [apply denom_eqb_eq in E; contradiction|reflexivity]. }
   rewrite Ec. unfold MICRO. lia.
 Qed.
+
+(* ---- C09 from the beginning of a chain: with all three built-in pools born backed, sealing is total in every
+   reachable state under the no-overflow bounds alone *)
+From MelVerif Require Import STF.Proofs.SealTotal.
+
+Lemma create_builtins_keeps s k p : get_pool s k = Some p -> get_pool (create_builtins s) k = Some p.
+Proof.
+  intros E. rewrite create_builtins_eq. cbn zeta.
+  assert (Keep: forall k0 st, get_pool st k = Some p -> get_pool (add_builtin k0 st) k = Some p).
+  { intros k0 st Est. unfold add_builtin. destruct (get_pool st k0) eqn:E0; [exact Est|].
+    destruct (N.eq_dec (poolkey_code k0) (poolkey_code k)) as [Ec|Ec]; [unfold get_pool in *; rewrite Ec in E0; congruence|].
+    rewrite get_pool_put_other by exact Ec. exact Est. }
+  destruct (tip_902 _); repeat apply Keep; exact E.
+Qed.
+
+Lemma hist_all_mono SO (ok1 ok2 : wstate -> hop -> Prop) :
+  (forall s o, ok1 s o -> ok2 s o) -> forall ops s, hist_all SO ok1 s ops -> hist_all SO ok2 s ops.
+Proof.
+  intros Himp. induction ops as [|o r IH]; intros s H; cbn [hist_all] in *; [exact I|].
+  destruct H as [H1 H2]. split; [apply Himp; exact H1|apply IH; exact H2].
+Qed.
+
+Section TotalFromGenesis.
+Variable K : list (denom * denom).
+Hypothesis Kcodes : NoDup (map poolkey_code K).
+Variable SO : stf_oracle.
+Hypothesis K_builtins : In MS K /\ In ME K /\ In ES K.
+Hypothesis LD_inj : forall k1 k2, In k1 K -> In k2 K -> LDk SO k1 = LDk SO k2 -> k1 = k2.
+
+(* the step condition: for each built-in pool, the hash-oracle facts, the no-overflow bounds, and no faucet
+   of a batch issuing the pool's token *)
+Definition builtins_step_ok (s : wstate) (o : hop) : Prop := forall k, builtin k -> pool_bounds_step_ok K SO k s o.
+
+Theorem seal_total_from_born ops s0 :
+  Good2 s0 -> (forall k, builtin k -> BornBacked K SO k s0) -> hist_all SO builtins_step_ok s0 ops ->
+  let s := fold_left (hstep SO) ops s0 in
+  legacy_net s && (s_height s <? 978392) = false ->
+  (forall t k1, In t (sorted_txs s) -> tx_pool t = Some k1 -> In k1 K /\ LDk SO k1 <> fst k1 /\ LDk SO k1 <> snd k1) ->
+  nsum (map (fun t => cd_value (out0 t)) (sorted_txs s)) < U128 ->
+  nsum (map (fun t => cd_value (out1 t)) (sorted_txs s)) < U128 ->
+  (forall s2, process_swaps (create_builtins s) = Ok s2 ->
+     forall k1 p'' m, In k1 K ->
+       pool_deposit (pool_at s2 k1)
+         (nsum (map (fun t => cd_value (out0 t)) (txs_for_pool (List.filter (is_deposit_request s2) (sorted_txs s2)) k1)))
+         (nsum (map (fun t => cd_value (out1 t)) (txs_for_pool (List.filter (is_deposit_request s2) (sorted_txs s2)) k1))) = Ok (p'', m) ->
+       p_liqs (pool_at s2 k1) + m < U128) ->
+  (s_height s - TIP_909_HEIGHT) / 1000000 < 128 ->
+  (forall s1 sm, preseal_melmint SO s = Ok s1 -> get_pool s1 MS = Some sm -> s_fee_pool s + p_lefts sm + s_tips s < U128) ->
+  forall a, exists s', seal SO s a = Ok s'.
+Proof.
+  intros G B H s Hleg Hcover Hs0 Hs1 Hsat Hh Hf.
+  assert (Bs: forall k, builtin k -> BornBacked K SO k s).
+  { intros k Hk. apply (born_backed_forever K Kcodes SO K_builtins LD_inj k Hk ops s0 G (B k Hk)).
+    revert H. apply hist_all_mono. intros s1 o Hall. apply Hall. exact Hk. }
+  assert (Hok: hist_ok SO s0 ops).
+  { revert H. apply hist_all_mono. intros s1 o Hall.
+    destruct (Hall MS (or_introl eq_refl)) as [Hb _]. apply (bounds_step K SO); [exact K_builtins|exact Hb]. }
+  apply (seal_total_reachable K Kcodes SO K_builtins LD_inj ops s0 G Hok); try assumption.
+  - (* room to spare after the bootstrap *)
+    intros k p1 Hk E1. fold s in E1 |- *. destruct (Bs k Hk) as [(p & Ep & _ & Hb)|(En & Hu & Ht)].
+    + rewrite (create_builtins_keeps s k p Ep) in E1. injection E1 as <-.
+      unfold LDk in *. rewrite psum_custom_create by assumption. exact Hb.
+    + rewrite (unborn_created k Hk s En Ht) in E1. injection E1 as <-.
+      unfold LDk in *. rewrite psum_custom_create by assumption. cbn [builtin_pool p_liqs]. exact Hu.
+  - (* the built-in pools that exist are live *)
+    intros k p Hk Ep. fold s in Ep. destruct (Bs k Hk) as [(p0 & Ep0 & Lp & _)|(En & _)]; [|congruence].
+    rewrite Ep in Ep0. injection Ep0 as <-. exact Lp.
+Qed.
+
+Lemma builtins_step_ok_def s o : builtins_step_ok s o <-> forall k, builtin k -> pool_bounds_step_ok K SO k s o.
+Proof. reflexivity. Qed.
+End TotalFromGenesis.
